@@ -217,6 +217,11 @@ func c18(c *Ctx) {
 					break
 				}
 			}
+			if VecBuild {
+				// vector phase: the channel is closed inside the j-th engine call
+				// (read / reconstruct / factory / train / add / serialise)
+				c18engineCancel(c, id, p, ins, bm, path, rng, counts)
+			}
 			for k, v := range counts {
 				c.R.Inc("cancel_"+k, v)
 			}
